@@ -21,7 +21,7 @@ from lib import common, families, progcheck  # noqa: E402
 
 def main(run: common.Run):
     tier = run.tier
-    n = 30 if tier == "quick" else 300
+    n = 30 if tier == "quick" else 1200
     run.bounds = {"generated_trees": n, "solver_cap_s": 20 if tier == "quick" else 120, "max_depth": 4,
                   "frames_per_tree": "<= 6", "calldata": "selector + 2..3 symbolic words"}
     run.functions_encoded = ["halmos.sevm.SEVM.call", "halmos.sevm.SEVM.create", "halmos.sevm.SEVM.transfer_value",
